@@ -19,7 +19,9 @@
 EXTENDS Integers, Sequences, FiniteSets, TLC
 
 CONSTANTS Types,     \* event type names
-          Procs      \* driver goroutines: small positive integers (every other member of DOMAIN stack is an async task)
+          Procs,     \* driver goroutines: small positive integers (every other member of DOMAIN stack is an async task)
+          FifoLock   \* TRUE: the mutex of an Async+Sequential registration is handed out in publish order (a ticket lock)
+                     \* FALSE: any waiting invocation may take it (sync.Mutex, as ebu does today - defect D2)
 
 VARIABLES
   cfg,        \* options the bus was created with: [obs, before, beforeCtx, after, afterCtx, panicH, closer : BOOLEAN]
@@ -93,6 +95,16 @@ SetTop(g, f) == stack' = [stack EXCEPT ![g] = Append(Below(g), f)]
 Push(g, f) == stack' = [stack EXCEPT ![g] = Append(@, f)]
 SetTopPush(g, f1, f2) == stack' = [stack EXCEPT ![g] = Append(Append(Below(g), f1), f2)]
 
+\* The top frame f of goroutine g is an invocation frame that has just been advanced.  If it is over
+\* (pc = "end") the invocation ends in the same step: a synchronous one returns into the publish loop of
+\* the frame below, an asynchronous one ends its goroutine (wg.Done).  Ending as early as possible is the
+\* most permissive choice for Wait/Shutdown and loses no behaviour: nothing else is observable between
+\* the last callback of an invocation and its end.
+AfterInvStep(g, f) ==
+  IF f.pc # "end" THEN stack' = [stack EXCEPT ![g] = Append(Below(g), f)]
+  ELSE IF f.async THEN stack' = [h \in Gs \ {g} |-> stack[h]]
+  ELSE stack' = [stack EXCEPT ![g] = Append(SubSeq(@, 1, Len(@) - 2), NextHandler(@[Len(@) - 1]))]
+
 \* A goroutine may issue an API call when it is an idle driver or inside a handler body.
 CanCall(g) == /\ g \in Gs
               /\ \/ stack[g] = <<>> /\ g \in Procs
@@ -114,12 +126,14 @@ WaitingTasks == {k \in Tasks : Top(k).pc \in {"tctx", "hstart", "lock", "enter"}
 (*                   filter rejected it                                    *)
 (*   onceRan       : Once registrations whose body has started             *)
 (*   inside        : Sequential registrations whose body is running        *)
+(*   seqMax[<<r,g>>]: highest publish number of goroutine g for which the    *)
+(*                   Async+Sequential registration r has started running   *)
 (*   waitNeeds[g]  : async invocations a Wait/Shutdown by g must outlast   *)
 (*   bad           : names of violated rules                               *)
 (***************************************************************************)
 GhostInit == [subDone |-> {}, remStarted |-> {}, remDone |-> {},
               must |-> <<>>, mustNot |-> <<>>, got |-> <<>>, rej |-> <<>>,
-              onceRan |-> {}, inside |-> {}, waitNeeds |-> <<>>, bad |-> {}]
+              onceRan |-> {}, inside |-> {}, seqMax |-> <<>>, waitNeeds |-> <<>>, bad |-> {}]
 
 Flag(cond, name) == IF cond THEN {name} ELSE {}
 
@@ -321,7 +335,8 @@ Dispatch(g) ==
        IF attr[r].async
        THEN /\ stack' = [h \in Gs \cup {tid} |->
                            IF h = tid
-                           THEN <<[NewInv(r, f.pub, TRUE, g, f.n, f.ctx) EXCEPT !.pc = "tctx"]>>
+                           THEN <<IF f.ctx = Bg THEN InvStart(NewInv(r, f.pub, TRUE, g, f.n, f.ctx))
+                                  ELSE [NewInv(r, f.pub, TRUE, g, f.n, f.ctx) EXCEPT !.pc = "tctx"]>>
                            ELSE IF h = g THEN Append(Below(g), NextHandler(f)) ELSE stack[h]]
             /\ gh' = [gh EXCEPT !.got = [@ EXCEPT ![f.pub] = @ \cup {r}],
                                 !.bad = @ \cup Flag(r \in gh.got[f.pub], "twice")
@@ -348,17 +363,25 @@ ObsHandlerStart(g) ==
   /\ SetTop(g, InvAfterHStart(Top(g)))
   /\ UNCHANGED <<cfg, reg, attr, fired, seqHolder, cancelled, closed, pubs, npub, gh>>
 
+\* Async invocations of r for earlier publishes by the same goroutine that have not started yet (C07 FIFO)
+EarlierWaiting(g) ==
+  {k \in WaitingTasks \ {g} : Top(k).reg = Top(g).reg /\ Top(k).pg = Top(g).pg /\ Top(k).n < Top(g).n}
+
+\* the invocation g starts after a later publish of the same goroutine was already processed by the
+\* same Async+Sequential registration
+FifoInversion(g) ==
+  /\ attr[Top(g).reg].seq /\ Top(g).async
+  /\ <<Top(g).reg, Top(g).pg>> \in DOMAIN gh.seqMax
+  /\ gh.seqMax[<<Top(g).reg, Top(g).pg>>] > Top(g).n
+
 \* internal: a Sequential registration's mutex is taken (blocks while another invocation holds it)
 SeqAcquire(g) ==
   /\ InvAt(g, "lock")
   /\ Top(g).reg \notin DOMAIN seqHolder
+  /\ (FifoLock /\ Top(g).async) => EarlierWaiting(g) = {}
   /\ seqHolder' = (Top(g).reg :> g) @@ seqHolder
   /\ SetTop(g, [Top(g) EXCEPT !.pc = "enter"])
   /\ UNCHANGED <<cfg, reg, attr, fired, cancelled, closed, pubs, npub, gh>>
-
-\* Async invocations of r for earlier publishes by the same goroutine that have not started yet (C07 FIFO)
-EarlierWaiting(g) ==
-  {k \in WaitingTasks \ {g} : Top(k).reg = Top(g).reg /\ Top(k).pg = Top(g).pg /\ Top(k).n < Top(g).n}
 
 \* (E) the handler body of registration r starts running for publish p
 Enter(g, r, p) ==
@@ -368,18 +391,20 @@ Enter(g, r, p) ==
         !.got = IF Top(g).async THEN @ ELSE [@ EXCEPT ![p] = @ \cup {r}],
         !.onceRan = IF attr[r].once THEN @ \cup {r} ELSE @,
         !.inside = IF attr[r].seq THEN @ \cup {r} ELSE @,
+        !.seqMax = IF attr[r].seq /\ Top(g).async /\ ~FifoInversion(g)
+                   THEN (<<r, Top(g).pg>> :> Top(g).n) @@ @ ELSE @,
         !.bad = @ \cup Flag(~Top(g).async /\ r \in gh.got[p], "twice")
                   \cup Flag(~Top(g).async /\ r \in gh.mustNot[p], "mustNot")
                   \cup Flag(attr[r].once /\ r \in gh.onceRan, "onceTwice")
                   \cup Flag(attr[r].seq /\ r \in gh.inside, "overlap")
-                  \cup Flag(attr[r].seq /\ Top(g).async /\ EarlierWaiting(g) # {}, "fifo")]
+                  \cup Flag(FifoInversion(g), "fifo")]
   /\ UNCHANGED <<cfg, reg, attr, fired, seqHolder, cancelled, closed, pubs, npub>>
 
 \* (E) the handler body returns (panicked = it panicked); a Sequential mutex is released
 Exit(g, r, p, panicked) ==
   /\ InvAt(g, "body") /\ Top(g).reg = r /\ Top(g).pub = p
   /\ panicked \in BOOLEAN
-  /\ SetTop(g, InvAfterExit([Top(g) EXCEPT !.panicked = panicked]))
+  /\ AfterInvStep(g, InvAfterExit([Top(g) EXCEPT !.panicked = panicked]))
   /\ seqHolder' = Restrict(seqHolder, DOMAIN seqHolder \ {r})
   /\ gh' = [gh EXCEPT !.inside = @ \ {r}]
   /\ UNCHANGED <<cfg, reg, attr, fired, cancelled, closed, pubs, npub>>
@@ -387,23 +412,14 @@ Exit(g, r, p, panicked) ==
 \* (E) the panic handler is called for a recovered panic
 PanicHandler(g) ==
   /\ InvAt(g, "panich")
-  /\ SetTop(g, InvAfterPanicH(Top(g)))
+  /\ AfterInvStep(g, InvAfterPanicH(Top(g)))
   /\ UNCHANGED <<cfg, reg, attr, fired, seqHolder, cancelled, closed, pubs, npub, gh>>
 
 \* (E) Observability.OnHandlerComplete (err = the invocation panicked)
 ObsHandlerDone(g, err) ==
   /\ InvAt(g, "hdone")
   /\ err = Top(g).panicked
-  /\ SetTop(g, [Top(g) EXCEPT !.pc = "end"])
-  /\ UNCHANGED <<cfg, reg, attr, fired, seqHolder, cancelled, closed, pubs, npub, gh>>
-
-\* internal: the invocation is over: a synchronous one returns into the publish loop, an asynchronous
-\* one ends its goroutine (wg.Done)
-InvEnd(g) ==
-  /\ InvAt(g, "end")
-  /\ IF Top(g).async
-     THEN stack' = [h \in Gs \ {g} |-> stack[h]]
-     ELSE stack' = [stack EXCEPT ![g] = Append(SubSeq(@, 1, Len(@) - 2), NextHandler(@[Len(@) - 1]))]
+  /\ AfterInvStep(g, [Top(g) EXCEPT !.pc = "end"])
   /\ UNCHANGED <<cfg, reg, attr, fired, seqHolder, cancelled, closed, pubs, npub, gh>>
 
 \* internal: the Once registrations this publish claimed leave the registry
@@ -457,7 +473,7 @@ PubRet(g) ==
 InternalStep(g) ==
   \/ OpLin(g) \/ ClearAllDone(g) \/ ShutdownDone(g) \/ ShutdownCtx(g)
   \/ \E t \in Types : ClearAllStep(g, t)
-  \/ Snapshot(g) \/ Claim(g) \/ Dispatch(g) \/ TaskStart(g) \/ SeqAcquire(g) \/ InvEnd(g) \/ Retire(g)
+  \/ Snapshot(g) \/ Claim(g) \/ Dispatch(g) \/ TaskStart(g) \/ SeqAcquire(g) \/ Retire(g)
 
 \* ------------------------------------------------------------ properties
 TypeOK ==
